@@ -118,6 +118,14 @@ def engine_cases(chk):
                 for cached in (False, True):
                     cases.append({"fam": "engine", "obligations": obs, "ctx": ctx, "shape": shape, "cached": cached,
                                   "checker": "builtin"})
+    # custom checkers written as docs/obligations.md says (subclass the built-in one, call super().check first, then an
+    # own rule that does not depend on the obligation list), on permits WITH and WITHOUT obligations
+    for obs in (None, [], [{"type": "require_mfa"}], [{"type": "unknown"}]):
+        for ctx in ({}, {"mfa": True}, {"mfa": True, "region": "embargoed"}, {"region": "embargoed"}):
+            for flavour in ("subclass-sync", "subclass-async"):
+                for shape in ("single", "set"):
+                    cases.append({"fam": "engine_subclass", "obligations": obs, "ctx": ctx, "shape": shape, "cached": False,
+                                  "checker": flavour})
     for verdict in ([False, None], [False, "mfa"], [True, None], [0, "x"], [1, None], ["raise"]):
         # a checker "synchronous or asynchronous": every way a check() can hand back its verdict now or later
         for flavour in ("sync", "async", "def-returning-coroutine", "def-returning-future", "decorated-async",
@@ -137,13 +145,39 @@ def run_engine(cases):
 
     async def go():
         for c in cases:
-            rule = {"id": "r", "effect": "permit", "actions": ["read"], "resource": {"type": "doc"},
-                    "obligations": c["obligations"]}
+            rule = {"id": "r", "effect": "permit", "actions": ["read"], "resource": {"type": "doc"}}
+            if c["obligations"] is not None:
+                rule["obligations"] = c["obligations"]
             pol = {"algorithm": "deny-overrides", "rules": [rule]}
             if c["shape"] == "set":
                 pol = {"algorithm": "first-applicable", "policies": [{"id": "p", **pol}]}
             kw = {}
-            if c["checker"] != "builtin":
+            if c["checker"].startswith("subclass"):
+                from rbacx.core.obligations import BasicObligationChecker
+
+                class Geo(BasicObligationChecker):
+                    def check(self, raw, context):
+                        ok, ch = super().check(raw, context)
+                        if not ok:
+                            return ok, ch
+                        attrs = getattr(context, "attrs", None) or {}
+                        if attrs.get("region") == "embargoed":
+                            return False, "geo"
+                        return True, None
+
+                class GeoAsync(BasicObligationChecker):
+                    async def check(self, raw, context):  # type: ignore[override]
+                        await asyncio.sleep(0)
+                        ok, ch = BasicObligationChecker.check(self, raw, context)
+                        if not ok:
+                            return ok, ch
+                        attrs = getattr(context, "attrs", None) or {}
+                        if attrs.get("region") == "embargoed":
+                            return False, "geo"
+                        return True, None
+
+                kw["obligation_checker"] = Geo() if c["checker"] == "subclass-sync" else GeoAsync()
+            elif c["checker"] != "builtin":
                 v = c["verdict"]
 
                 class Sync:
@@ -256,20 +290,22 @@ def check_cases(chk, cases, replay=False):
     eng = [c for c in cases if c["fam"].startswith("engine")]
     if eng:
         res = run_engine(eng)
-        blines = [lib.model_call("oblig.check", "permit", c["obligations"], c["ctx"]) for c in eng]
+        blines = [lib.model_call("oblig.check", "permit", c["obligations"] or [], c["ctx"]) for c in eng]
         bouts = [lib.dec(x) for x in lib.run_model(RUNNER, blines)]
         for c, ds, m in zip(eng, res, bouts):
             chk.count("fam:" + c["fam"])
             chk.mark(repr(c), True)
-            if c["checker"] == "builtin":
+            if c["checker"] == "builtin" or c["checker"].startswith("subclass"):
                 if m == ["Ood"]:
                     continue
                 ok, ch = (m[1], m[2]) if m[0] == "Ok" else (True, None)
+                if c["checker"].startswith("subclass") and ok and c["ctx"].get("region") == "embargoed":
+                    ok, ch = False, "geo"      # the subclass's own rule, after the built-in table
             else:
                 v = c["verdict"]
                 ok, ch = (True, None) if v == ["raise"] else (bool(v[0]), v[1])
             want = {"allowed": ok, "effect": "permit" if ok else "deny", "reason": "matched" if ok else "obligation_failed",
-                    "challenge": ch, "rule_id": "r", "obligations": c["obligations"]}
+                    "challenge": ch, "rule_id": "r", "obligations": c["obligations"] or []}
             for k, d in enumerate(ds):
                 if d != want:
                     chk.violation("engine does not gate the permit by the checker's verdict (c07_engine_gate)%s"
